@@ -178,7 +178,7 @@ type named struct {
 	v    *big.Int
 }
 
-func pow2(k uint) *big.Int { return new(big.Int).Lsh(one, k) }
+func pow2(k uint) *big.Int    { return new(big.Int).Lsh(one, k) }
 func neg(x *big.Int) *big.Int { return new(big.Int).Neg(x) }
 func plus(x *big.Int, d int64) *big.Int {
 	return new(big.Int).Add(x, big.NewInt(d))
